@@ -12,6 +12,7 @@ import (
 	"hash/fnv"
 	"net"
 	"os"
+	"runtime"
 	"sort"
 	"strings"
 	"sync"
@@ -101,6 +102,9 @@ type Sim struct {
 	OrderDraws  int
 	// Anomalies are harness-level consistency problems (never violations)
 	Anomalies []string
+	// Free switches the scheduler off for goroutine yields (see parkKey)
+	Free       bool
+	FreeYields int
 	// TraceFile, when set, receives every trace line at once (replay mode)
 	TraceFile *os.File
 }
@@ -313,8 +317,17 @@ func (s *Sim) park(g *gor, label string) { s.parkKey(g, label, nil) }
 
 func (s *Sim) parkKey(g *gor, label string, key interface{}) {
 	s.mu.Lock()
-	if s.down {
+	if s.down || s.Free {
+		// free-running mode: goroutines are not parked, only network / script actions stay with the
+		// driver. Not replayable; exists so that the race detector can see accesses the scheduler
+		// would otherwise order through its own park/release synchronisation.
+		if s.Free {
+			s.FreeYields++
+		}
 		s.mu.Unlock()
+		if s.Free {
+			runtime.Gosched()
+		}
 		return
 	}
 	p := &parked{g: g, label: label, key: key, wake: make(chan struct{})}
